@@ -64,10 +64,12 @@ def write_job(jobdir: Path, *, schema: str | dict | None, queries: str | dict | 
 
 
 def generate(jobdir: Path, strategy: str = "client", *, audit: bool = False, hashseed=0, env=None, timeout=600,
-             config: str | None = None) -> dict:
+             config: str | None = None, probe: bool = False) -> dict:
     args = ["-m", "harness.drive_gen", str(jobdir), strategy]
     if audit:
         args.append("--audit")
+    if probe:
+        args.append("--probe")
     if config:
         args += ["--config", config]
     p = run_py(args, hashseed=hashseed, env=env, timeout=timeout)
